@@ -16,8 +16,10 @@ IMPORTS = ("From CV Require Import Base.Cmp Base.Ext Model.C02_MH Model.C02_Tune
 RULE = ("one case = one transition (or one 3-step chain) of one sampler site (10 sites: 5 kernels x 2 interfaces) on one target "
         "(quadratic / quartic user-defined log-densities with optional NaN/-inf/+inf region, cuqi Gaussian posteriors with integer "
         "matrices), dims 1-3, scales scalar/vector/tiny/>1, histories fresh / after warm-up (tuned scale) / after state reload, "
-        "log u tie (u=1) / just below / just above the MH threshold / random / u=0; distinct = distinct (site, target, state, "
-        "draws); trivial = zero proposal noise")
+        "log u tie (u=1) / just below / just above the MH threshold / random / u=0; optional constructor arguments (rng= objects, "
+        "initial-point styles, callable target + dim, proposal= forms, per-component MH scale, pCN prior forms, tuple target, "
+        "magnitudes 2^-20/2^20); every recorded tune() call and the first legacy sample_adapt adaptations (ENCLOSURE); lattice "
+        "kernel enumerations; distinct = distinct (site, target, options, state, draws); trivial = zero proposal noise")
 
 F0 = Fraction(0)
 HALF = Fraction(1, 2)
@@ -1298,6 +1300,11 @@ def option_cases(ctx):
                 hist = "fresh"
             spec = gen_spec(ctx, site, fam, None, hist, idx)
             d = len(spec["x0"])
+            # option cells never use scale 1 (where s, s^2 and sqrt(s) coincide)
+            fix1 = lambda v: 0.5 if v == 1.0 else v
+            spec["scale"] = [fix1(v) for v in spec["scale"]] if isinstance(spec["scale"], list) else fix1(spec["scale"])
+            if spec["hist"].get("scale2") is not None:
+                spec["hist"]["scale2"] = spec["scale"]
             o = {}
             for k_, v_ in opts.items():
                 o[k_] = v_
